@@ -48,6 +48,34 @@ def thread_roots(fb):
     return res
 
 
+def block_granularity(rep, fb, rule):
+    """each process() call of the engines sits alone in a try/catch(...) without loops (shared by C01 R01.4 and C07 R07.5)"""
+    for eq in ENGINES:
+        f = fb.fn(eq)
+        for n in f.walk():
+            if n.get('callee', {}).get('q') != 'uscxml::MicroStepCallbacks::process':
+                continue
+            tr = None
+            for a in f.ancestors(n):
+                if a['k'] == 'CXXTryStmt':
+                    tr = a
+                    break
+                if a['k'] in ('ForStmt', 'CXXForRangeStmt', 'WhileStmt', 'DoStmt'):
+                    break
+            ordinal = sum(1 for x in f.walk() if x.get('callee', {}).get('q') == 'uscxml::MicroStepCallbacks::process' and x['loc'][1] < n['loc'][1])
+            sig = '%s|process#%d' % (eq.split('::')[1], ordinal)
+            if tr is None:
+                rep.fail(rule, sig, locstr(n), 'process() is not directly enclosed by a try inside its loop: an error would skip the following blocks too')
+                continue
+            body = tr['c'][0]
+            calls = [s for s in sub(body) if s.get('callee', {}).get('q') == 'uscxml::MicroStepCallbacks::process']
+            loops = [s for s in sub(body) if s['k'] in ('ForStmt', 'CXXForRangeStmt', 'WhileStmt', 'DoStmt')]
+            catch_all = any(h.get('caught') == '...' for h in tr['c'][1:])
+            rep.check(len(calls) == 1 and not loops and catch_all, rule, sig, locstr(n),
+                      'try body holds %d process() call(s), %d loop(s); catch(...): %s' % (len(calls), len(loops), catch_all))
+
+
+
 def run(rep, tier):
     rep.rule('R07.1', 'containment at the micro-step boundary: every callback call in LargeMicroStep::step / FastMicroStep::step either has an empty may-throw set or is enclosed by handlers catching all of it')
     rep.rule('R07.2', 'thread roots and C callbacks of the interpreter core are exception-closed: mayThrow(root) is empty')
@@ -192,29 +220,7 @@ def run(rep, tier):
     rep.minimum('R07.4', n4, 1, 'enqueue-and-rethrow handlers in recursive content execution')
 
     # ---- R07.5
-    for eq in ENGINES:
-        f = fb.fn(eq)
-        for n in f.walk():
-            if n.get('callee', {}).get('q') != 'uscxml::MicroStepCallbacks::process':
-                continue
-            tr = None
-            for a in f.ancestors(n):
-                if a['k'] == 'CXXTryStmt':
-                    tr = a
-                    break
-                if a['k'] in ('ForStmt', 'CXXForRangeStmt', 'WhileStmt', 'DoStmt'):
-                    break
-            ordinal = sum(1 for x in f.walk() if x.get('callee', {}).get('q') == 'uscxml::MicroStepCallbacks::process' and x['loc'][1] < n['loc'][1])
-            sig = '%s|process#%d' % (eq.split('::')[1], ordinal)
-            if tr is None:
-                rep.fail('R07.5', sig, locstr(n), 'process() is not directly enclosed by a try inside its loop: an error would skip the following blocks too')
-                continue
-            body = tr['c'][0]
-            calls = [s for s in sub(body) if s.get('callee', {}).get('q') == 'uscxml::MicroStepCallbacks::process']
-            loops = [s for s in sub(body) if s['k'] in ('ForStmt', 'CXXForRangeStmt', 'WhileStmt', 'DoStmt')]
-            catch_all = any(h.get('caught') == '...' for h in tr['c'][1:])
-            rep.check(len(calls) == 1 and not loops and catch_all, 'R07.5', sig, locstr(n),
-                      'try body holds %d process() call(s), %d loop(s); catch(...): %s' % (len(calls), len(loops), catch_all))
+    block_granularity(rep, fb, 'R07.5')
 
     # ---- R07.6
     C17.check_divisions(rep, fb, 'R07.6')
